@@ -14,6 +14,7 @@ use corgi::numbers::Float;
 use corgi::optimizer::gd::GradientDescent;
 use corgi::{activation, cost, initializer};
 use refmodel::elab::*;
+use refmodel::ir::*;
 use serde::{Deserialize, Serialize};
 use serde_json::{json, Value};
 
@@ -207,6 +208,21 @@ pub fn run(ctx: &Ctx) -> i32 {
     for (name, exact) in [("histories-exact", true), ("histories-mixed", false)] {
         let cfg = cfg_for(t, exact);
         st.merge(ctx.run_prop(name, total / 2, move || recipe_strategy(len), move |r| Some(Case18::H(HistCase { oracle: "c18".into(), hist: elaborate(&cfg, r) }))));
+    }
+    // an array against a reshaped view of itself: once every result and view is gone, the array owns its buffer alone and
+    // behaves like a new one
+    {
+        let va = crate::gens::view_alias_cases();
+        st.merge(ctx.run_indexed("operand-is-a-view-of-the-other-then-released", va.len() as u64, None, |i| {
+            let mut hist = va[i as usize].history();
+            // slots: 0 the array, 1 an unused second leaf, 2.. the view and the results
+            let slots = hist.steps.iter().filter(|s| matches!(s, Step::Leaf { .. } | Step::Apply(_) | Step::Clone { .. })).count();
+            for h in (1..slots).rev() {
+                hist.steps.push(Step::Drop { h });
+            }
+            hist.steps.push(Step::ProbeSole { h: 0 });
+            Some(Case18::H(HistCase { oracle: "c18".into(), hist }))
+        }));
     }
     for (name, p) in [("programs-with-large-dimensions", Profile::LargeDims), ("programs-with-wide-magnitudes", Profile::WideMagnitudes)] {
         let cfg = cfg_for(t, false).with_profile(p, t == Tier::Thorough, crate::exec::IS_F32);
